@@ -187,6 +187,51 @@ def walk_own(fnode):
             stack.append(ch)
 
 
+def inline_temporaries(fnode, expr, depth=4, keep=()):
+    """copy of `expr` in which every name that the function assigns exactly once (plain
+    `name = <expression>`, no augmented assignment, not a loop/with/except target, not a
+    parameter) is replaced by its defining expression, recursively.  Lets an expression-shaped
+    rule see through temporaries such as `diff = a[1:] - a[:-1]; x = diff / d`.  It does not
+    follow reaching definitions: a temporary whose ingredients are modified between its
+    definition and its use would be misread (not the case for the array differences and
+    products this is used on)."""
+    import copy
+    counts, defs = {}, {}
+    params = {a.arg for a in fnode.args.posonlyargs + fnode.args.args + fnode.args.kwonlyargs}
+    for n in walk_own(fnode):
+        if isinstance(n, ast.Assign):
+            for t in n.targets:
+                for x in ast.walk(t):
+                    if isinstance(x, ast.Name):
+                        counts[x.id] = counts.get(x.id, 0) + 1
+                        if len(n.targets) == 1 and isinstance(t, ast.Name):
+                            defs[x.id] = n.value
+        elif isinstance(n, (ast.AugAssign, ast.AnnAssign)):
+            for x in ast.walk(n.target):
+                if isinstance(x, ast.Name):
+                    counts[x.id] = counts.get(x.id, 0) + 2
+        elif isinstance(n, (ast.For, ast.comprehension)):
+            for x in ast.walk(n.target):
+                if isinstance(x, ast.Name):
+                    counts[x.id] = counts.get(x.id, 0) + 2
+        elif isinstance(n, ast.withitem) and n.optional_vars is not None:
+            for x in ast.walk(n.optional_vars):
+                if isinstance(x, ast.Name):
+                    counts[x.id] = counts.get(x.id, 0) + 2
+    single = {k: v for k, v in defs.items() if counts.get(k) == 1 and k not in params and k not in keep and not isinstance(v, (ast.Call, ast.Lambda, ast.ListComp, ast.GeneratorExp, ast.Constant))}
+
+    class Sub(ast.NodeTransformer):
+        def __init__(self, d):
+            self.d = d
+
+        def visit_Name(self, node):
+            if isinstance(node.ctx, ast.Load) and node.id in single and self.d > 0:
+                return Sub(self.d - 1).visit(copy.deepcopy(single[node.id]))
+            return node
+
+    return ast.fix_missing_locations(Sub(depth).visit(copy.deepcopy(expr)))
+
+
 def walk_all(node):
     return ast.walk(node)
 
